@@ -58,6 +58,7 @@ def kwargs_from_call(
     kwdefaults: Dict[str, Any],
     args: Tuple[Any, ...],
     kwargs: Dict[str, Any],
+    positional_only: Optional[Set[str]] = None,
 ) -> MutableMapping[str, Any]:
     """
     Inspect the input values received at the wrapper for the actual function call.
@@ -66,6 +67,10 @@ def kwargs_from_call(
     :param kwdefaults: default argument values of the original function
     :param args: arguments supplied to the call
     :param kwargs: keyword arguments supplied to the call
+    :param positional_only:
+        names of the positional-only parameters of the original function; a keyword argument
+        with such a name is collected by the variadic keyword parameter and does not bind
+        the positional-only parameter
     :return: resolved arguments as they would be passed to the function
     """
     # (Marko Ristin, 2020-12-01)
@@ -96,6 +101,9 @@ def kwargs_from_call(
             pass  # pragma: no cover
 
     for key, val in kwargs.items():
+        if positional_only and key in positional_only:
+            continue
+
         resolved_kwargs[key] = val
 
     return resolved_kwargs
@@ -690,6 +698,12 @@ def decorate_with_checker(func: CallableT) -> CallableT:
         not in (inspect.Parameter.KEYWORD_ONLY, inspect.Parameter.VAR_KEYWORD)
     ]
 
+    positional_only = {
+        name
+        for name, param in sign.parameters.items()
+        if param.kind == inspect.Parameter.POSITIONAL_ONLY
+    }
+
     # Determine the default argument values
     kwdefaults = resolve_kwdefaults(sign=sign)
 
@@ -740,6 +754,7 @@ def decorate_with_checker(func: CallableT) -> CallableT:
                     kwdefaults=kwdefaults,
                     args=args,
                     kwargs=kwargs,
+                    positional_only=positional_only,
                 )
 
                 type_error = _assert_resolved_kwargs_valid(
@@ -813,6 +828,7 @@ def decorate_with_checker(func: CallableT) -> CallableT:
                     kwdefaults=kwdefaults,
                     args=args,
                     kwargs=kwargs,
+                    positional_only=positional_only,
                 )
 
                 type_error = _assert_resolved_kwargs_valid(
